@@ -409,13 +409,6 @@ class Schema(dict, metaclass=LogicalMeta):
             return super().__delitem__(key)
         return self.__field_deleter__(field)
 
-    def popitem(self):
-        if self.__options__.immutable:
-            raise exc.DeleteError(
-                f"{self.__name__}: Attempt to popitem in immutable schema"
-            )
-        return super().popitem()
-
     def pop(self, key: str, default=unprovided):
         if self.__options__.immutable:
             raise exc.DeleteError(
@@ -437,6 +430,31 @@ class Schema(dict, metaclass=LogicalMeta):
         # the attribute goes with the key
         self.__dict__.pop(field.attname, None)
         return super().pop(field.name, *args)
+
+    def popitem(self):
+        if self.__options__.immutable:
+            raise exc.DeleteError(
+                f"{self.__name__}: Attempt to popitem in immutable schema"
+            )
+        if not self:
+            return super().popitem()    # KeyError of an empty dict
+        # the last key goes through the same checks as pop() (required / immutable fields stay)
+        key = next(reversed(self))
+        return key, self.pop(key)
+
+    def setdefault(self, key: str, default=None):
+        # dict.setdefault would store the raw default, bypassing parsing and the addition policy
+        if key in self:
+            return self[key]
+        self[key] = default
+        if key in self:
+            return self[key]
+        return default
+
+    def __ior__(self, other):
+        # dict.__ior__ would store raw values and overwrite immutable fields
+        self.update(other)
+        return self
 
     def update(self, __m=None, **kwargs):
         if self.__options__.immutable:
